@@ -1,15 +1,37 @@
 """Generator of transaction histories for the MDIB streams and the oracles that evaluate the MDIB
-properties directly on implementation traces (harness side)."""
+properties directly on implementation traces (harness side).
+
+Operation formats (executed by harness/impl/mdib_impl.py, translated by harness/mdibmodel.py):
+  {'k': 'state', 'tx': kind, 'iface': 'classic'|'entity', 'items': [[handle, n] | [handle, n, slot], ...]}
+  {'k': 'ctx', 'iface': ..., 'actions': [['mk', dh, handle|None, assoc, n(, slot)], ['get', handle, n, assoc(, slot)],
+                                         ['disall', dh, ignored], ['delstate', handle]]}
+  {'k': 'descr', 'iface': ..., 'actions': [['add', handle, parent|None, type, n, state_n|None(, slot)],
+                                           ['upd', handle, n(, slot)], ['updsrc', handle, value], ['del', handle],
+                                           ['state', handle, n]]}
+  {'k': 'read', 'handle': h, 'slot': s}      entities.by_handle(h) is kept in slot s; a later operation that names the
+                                             slot writes THAT (by then possibly stale) entity instead of a fresh one
+  {'k': 'location', 'n': n}
+  optional: 'abort_at': i (the application raises after i body statements), 'expect': 'abort'|'reject', 'tag': [...]
+  (tags only feed the histograms), 'nomodel': True (outside the domain of coq/Mdib/Model.v: the model correspondence
+  compares the case up to this operation, the oracles judge all of it)."""
 from __future__ import annotations
 
 import copy
 
-CHILD_TYPE = {'MdsDescriptor': 'VmdDescriptor', 'VmdDescriptor': 'ChannelDescriptor',
-              'ChannelDescriptor': 'NumericMetricDescriptor'}
+CHILD_TYPES = {'MdsDescriptor': ['VmdDescriptor', 'VmdDescriptor', 'SystemContextDescriptor'],
+               'VmdDescriptor': ['ChannelDescriptor'],
+               'ChannelDescriptor': ['NumericMetricDescriptor'],
+               'SystemContextDescriptor': ['PatientContextDescriptor']}
+CHILD_TYPE = {k: v[0] for k, v in CHILD_TYPES.items()}
+# the schema allows at most one of these below one parent (matters when the whole MDIB is serialised: GetMdib)
+SINGLETON = {'SystemContextDescriptor', 'PatientContextDescriptor'}
 TX_OF_TYPE = {'NumericMetricDescriptor': 'metric', 'ChannelDescriptor': 'comp', 'VmdDescriptor': 'comp',
-              'MdsDescriptor': 'comp'}
+              'MdsDescriptor': 'comp', 'SystemContextDescriptor': 'comp', 'PatientContextDescriptor': 'ctx'}
 
-DEFAULT_WEIGHTS = {'state': 5, 'ctx': 2, 'location': 1, 'descr': 3, 'reject': 1, 'abort': 1}
+DEFAULT_WEIGHTS = {'state': 5, 'ctx': 2, 'location': 1, 'descr': 3, 'reject': 1, 'abort': 1, 'macro': 2}
+
+# orders in which the states of two MDSs (A, B) follow each other inside ONE transaction
+PATTERNS = ('ABA', 'BAB', 'AAB', 'ABB', 'BAA', 'BBA', 'ABAB', 'ABBA', 'ABABA')
 
 
 class Gen:
@@ -25,12 +47,17 @@ class Gen:
         self.tree = dict(inv['tree'])            # handle -> parent   (live descriptors)
         self.types = dict(inv['types'])
         self.deleted = {}                        # handle -> (parent, type) of deleted generated descriptors
-        self.ctx_states = {}                     # canonical handle -> descriptor handle
+        self.ctx_states = dict(inv.get('ctx_states', {}))     # canonical handle -> descriptor handle
+        self.dead_ctx = {}                       # explicit handle of a removed context state -> descriptor handle
+        self.slots = {}                          # slot -> {'h': handle, 'cs': context states at read time, 'dirty': bool}
+        self.hot = []                            # handles touched lately (histories keep working on the same objects)
         self.n = 0
-        self.ngen = 0
+        self.ngen = sum(1 for h in self.ctx_states if h.startswith('gen'))
         self.nctx = 0
+        self.nslot = 0
         self.kinds = {k: list(inv[k]) for k in ('metric', 'metric_str', 'rt', 'alert', 'comp', 'op', 'ctx')}
 
+    # ------------------------------------------------------------------ helpers
     def fresh(self):
         self.n += 1
         return self.n
@@ -41,46 +68,222 @@ class Gen:
     def live(self, kind):
         return [h for h in self.kinds[kind] if h in self.tree]
 
+    def touch(self, *handles):
+        for h in handles:
+            if h in self.hot:
+                self.hot.remove(h)
+            self.hot.append(h)
+        del self.hot[:-6]
+
+    def pick(self, pool, p_hot=0.4):
+        hot = [h for h in self.hot if h in pool]
+        if hot and self.rng.random() < p_hot:
+            return self.rng.choice(hot)
+        return self.rng.choice(pool)
+
+    def mds_of(self, h):
+        seen = 0
+        while self.tree.get(h) is not None and seen < 64:
+            h = self.tree[h]
+            seen += 1
+        return h
+
+    def by_mds(self, handles):
+        out = {}
+        for h in handles:
+            out.setdefault(self.mds_of(h), []).append(h)
+        return out
+
+    def interleaved(self, pool, pattern=None):
+        """>= 3 handles of `pool` whose MDSs follow each other as in `pattern` (None: the pool lives in one MDS)"""
+        groups = self.by_mds(pool)
+        if len(groups) < 2:
+            return None
+        for _ in range(6):
+            a, b = self.rng.sample(sorted(groups), 2)
+            pat = pattern or self.rng.choice(PATTERNS)
+            left = {'A': list(groups[a]), 'B': list(groups[b])}
+            self.rng.shuffle(left['A'])
+            self.rng.shuffle(left['B'])
+            out = [left[ch].pop() for ch in pat if left[ch]]
+            if len(out) >= 3 and len({self.mds_of(h) for h in out}) == 2:
+                return out
+        return None
+
+    def state_pool(self, tx):
+        return self.live(tx) + (self.live('metric_str') if tx == 'metric' else [])
+
+    def slot_for(self, h):
+        for s in sorted(self.slots, reverse=True):
+            if self.slots[s]['h'] == h:
+                return s
+        return None
+
+    def ctx_of(self, dh):
+        return [h for h, d in self.ctx_states.items() if d == dh]
+
+    def dirty(self, dh):
+        """the set / the association bookkeeping of the context states of dh changed: entities read earlier no longer
+        agree with the MDIB in more than payload and version"""
+        for s in self.slots.values():
+            if s['h'] == dh:
+                s['dirty'] = True
+
+    def child_options(self, p):
+        out = []
+        for t in CHILD_TYPES.get(self.types.get(p), []):
+            if t in SINGLETON and any(pp == p and self.types[c] == t for c, pp in self.tree.items()):
+                continue
+            out.append(t)
+        return out
+
     # ------------------------------------------------------------------ op makers
-    def op_state(self):
-        tx = self.rng.choice(['metric', 'metric', 'alert', 'comp', 'op', 'rt'])
-        pool = self.live(tx) + (self.live('metric_str') if tx == 'metric' else [])
+    def op_read(self, h):
+        self.nslot += 1
+        self.slots[self.nslot] = {'h': h, 'cs': self.ctx_of(h), 'dirty': False}
+        return {'k': 'read', 'handle': h, 'slot': self.nslot}
+
+    def op_state(self, tx=None, interleave=None, iface=None, handles=None):
+        if tx is None:
+            kinds = ['metric', 'metric', 'alert', 'comp', 'op', 'rt']
+            multi = [k for k in ('metric', 'alert', 'comp', 'op', 'rt') if len(self.by_mds(self.state_pool(k))) > 1]
+            tx = self.rng.choice(multi if multi and self.rng.random() < 0.4 else kinds)
+        pool = self.state_pool(tx)
         if not pool:
             return None
-        k = min(len(pool), self.rng.choice([1, 1, 1, 2, 3]))
-        handles = self.rng.sample(pool, k)
-        return {'k': 'state', 'tx': tx, 'iface': self.iface(), 'items': [[h, self.fresh()] for h in handles]}
+        iface = iface or self.iface()
+        tag = []
+        if handles is None and (interleave or (interleave is None and self.rng.random() < 0.6)):
+            handles = self.interleaved(pool, interleave if isinstance(interleave, str) else None)
+            if handles:
+                tag.append('mds-interleaved')
+        if handles is None:
+            if interleave:
+                return None
+            k = min(len(pool), self.rng.choice([1, 1, 1, 2, 3]))
+            handles = [self.pick(pool)]
+            handles += self.rng.sample([h for h in pool if h != handles[0]], k - 1)
+        items = []
+        for h in handles:
+            it = [h, self.fresh()]
+            s = self.slot_for(h)
+            if iface == 'entity' and s is not None and self.rng.random() < 0.7:
+                it.append(s)
+                tag.append('stale-entity')
+            items.append(it)
+        if self.rng.random() < 0.12:
+            # the same handle twice in one transaction: get_state refuses the second one (the whole transaction is
+            # abandoned), write_entity replaces the first write
+            j = self.rng.randrange(len(items))
+            items.insert(self.rng.randint(j + 1, len(items)), [items[j][0], self.fresh()] + items[j][2:])
+        self.touch(handles[0])
+        op = {'k': 'state', 'tx': tx, 'iface': iface, 'items': items}
+        if tag:
+            op['tag'] = sorted(set(tag))
+        return op
+
+    def _mk(self, dh, iface, acts, handle='new', assoc=None, slot=None, explicit=False):
+        """append the actions that create a context state of dh; returns its canonical handle"""
+        if handle == 'new':
+            self.nctx += 1
+            handle = f'cs{self.nctx}' if explicit or self.rng.random() < 0.6 else None
+        if assoc is None:
+            assoc = self.rng.random() < 0.7
+        if assoc and self.rng.random() < 0.8 and iface == 'classic':
+            acts.append(['disall', dh, None])
+        a = ['mk', dh, handle, assoc, self.fresh()]
+        if slot is not None:
+            a.append(slot)
+        acts.append(a)
+        name = handle or f'gen{self._next_gen()}'
+        self.ctx_states[name] = dh
+        self.dead_ctx.pop(name, None)
+        self.dirty(dh)
+        return name
 
     def op_ctx(self):
         r = self.rng.random()
         dhs = self.live('ctx')
         if not dhs:
             return None
-        dh = self.rng.choice(dhs)
-        mine = [h for h, d in self.ctx_states.items() if d == dh]
-        acts = []
         iface = self.iface()
+        groups = self.by_mds(dhs)
+        if len(groups) > 1 and self.rng.random() < 0.4:
+            # one transaction with context states of several MDSs, in an order in which the MDSs alternate
+            a, b = self.rng.sample(sorted(groups), 2)
+            seq = [self.rng.choice(groups[a if ch == 'A' else b]) for ch in self.rng.choice(PATTERNS)]
+            acts, used = [], set()
+            for dh in seq:
+                free = [h for h in self.ctx_of(dh) if h not in used]
+                if free and self.rng.random() < 0.5:
+                    h = self.rng.choice(free)
+                    acts.append(['get', h, self.fresh(), None])
+                else:
+                    h = self._mk(dh, 'entity', acts, assoc=False, explicit=True)      # no disassociate_all in between
+                used.add(h)
+            return {'k': 'ctx', 'iface': iface, 'actions': acts, 'tag': ['mds-interleaved']}
+        dh = self.pick(dhs)
+        mine = self.ctx_of(dh)
+        dead = [h for h, d in self.dead_ctx.items() if d == dh]
+        acts = []
+        tag = []
+        self.touch(dh)
+        dup = self.rng.random() < 0.15          # the same state handle twice in one transaction
+        if dup and iface == 'classic' and (r < 0.45 or not mine):
+            # mk_context_state refuses the second one: the transaction is abandoned, nothing is created
+            snap = self._save()
+            h = self._mk(dh, iface, acts, explicit=True)
+            self._restore(snap)
+            acts.append(['mk', dh, h, self.rng.random() < 0.5, self.fresh()])
+            return {'k': 'ctx', 'iface': iface, 'actions': acts, 'expect': 'reject'}
         if r < 0.45 or not mine:
-            self.nctx += 1
-            explicit = self.rng.random() < 0.6
-            handle = f'cs{self.nctx}' if explicit else None
-            assoc = self.rng.random() < 0.7
-            if assoc and self.rng.random() < 0.8 and iface == 'classic':
-                acts.append(['disall', dh, None])
-            acts.append(['mk', dh, handle, assoc, self.fresh()])
-            self.ctx_states[handle or f'gen{self._next_gen()}'] = dh
+            if dead and self.rng.random() < 0.6:
+                self._mk(dh, iface, acts, handle=self.rng.choice(dead))     # a removed handle comes back
+                tag.append('recreate')
+            else:
+                s = self.slot_for(dh)
+                if iface == 'entity' and s is not None and self.rng.random() < 0.6:
+                    self._mk(dh, iface, acts, slot=s)
+                    tag.append('stale-entity')
+                else:
+                    h = self._mk(dh, iface, acts, explicit=dup)
+                    if dup:       # entity interface: the second write_entity replaces the first
+                        acts.append(['mk', dh, h, self.rng.random() < 0.5, self.fresh()])
         elif r < 0.8 - self.w.get('delstate', 0) * 0.1:
             h = self.rng.choice(mine)
-            acts.append(['get', h, self.fresh(), self.rng.choice([None, None, True, False])])
+            assoc = self.rng.choice([None, None, True, False])
+            a = ['get', h, self.fresh(), assoc]
+            s = self.slot_for(dh)
+            if iface == 'entity' and s is not None and h in self.slots[s]['cs'] and self.rng.random() < 0.7:
+                a.append(s)
+                tag.append('stale-entity')
+            acts.append(a)
+            if dup:
+                a2 = list(a)
+                a2[2], a2[3] = self.fresh(), self.rng.choice([None, True, False])
+                acts.append(a2)
+                assoc = assoc if iface == 'classic' else a2[3]
+            if assoc is not None or dup:
+                self.dirty(dh)
         elif r < 0.8:
             h = self.rng.choice(mine)          # entity interface only: delete a context state
             acts.append(['delstate', h])
-            self.ctx_states.pop(h)
+            self._ctx_gone(h)
             iface = 'entity'
         else:
             acts.append(['disall', dh, self.rng.choice([None] + mine)])
             iface = 'classic'
-        return {'k': 'ctx', 'iface': iface, 'actions': acts}
+            self.dirty(dh)
+        op = {'k': 'ctx', 'iface': iface, 'actions': acts}
+        if tag:
+            op['tag'] = tag
+        return op
+
+    def _ctx_gone(self, h):
+        dh = self.ctx_states.pop(h)
+        if not h.startswith('gen'):
+            self.dead_ctx[h] = dh
+        self.dirty(dh)
 
     def _next_gen(self):
         self.ngen += 1
@@ -91,17 +294,36 @@ class Gen:
         for dh in self.live('ctx'):
             if self.types.get(dh) == 'LocationContextDescriptor':
                 self.ctx_states[f'gen{self._next_gen()}'] = dh
+                self.dirty(dh)
                 return {'k': 'location', 'n': self.fresh()}
         return None
+
+    def recreatable(self):
+        out = []
+        for h, (pp, tt) in self.deleted.items():
+            if h in self.tree or (pp is not None and pp not in self.tree):
+                continue
+            if tt in SINGLETON and any(p2 == pp and self.types[c] == tt for c, p2 in self.tree.items()):
+                continue
+            out.append(h)
+        return out
+
+    def add_action(self, h, p, t, iface, slot=None):
+        a = ['add', h, p, t, self.fresh(), self.fresh() if self.rng.random() < 0.5 and t != 'PatientContextDescriptor' else None]
+        if slot is not None:
+            a.append(slot)
+        self._add(h, p, t)
+        return a
 
     def op_descr(self):
         r = self.rng.random()
         iface = self.iface()
         acts = []
-        parents = [h for h, t in self.types.items() if h in self.tree and t in CHILD_TYPE]
+        tag = []
+        parents = [h for h in self.tree if self.child_options(h)]
         generated = [h for h in self.tree if h.startswith('g_')]
         nested = [(c, p) for c, p in self.tree.items() if c in generated and p in generated]
-        if nested and self.rng.random() < 0.3:
+        if nested and self.rng.random() < 0.25:
             # one transaction that removes a subtree AND touches something inside it
             c, p = self.rng.choice(nested)
             k = self.rng.random()
@@ -115,45 +337,87 @@ class Gen:
                 if self.rng.random() < 0.5:
                     acts.reverse()
             else:                 # create a descriptor below a removed one: must be rejected as a whole
-                t = self.types[p]
-                if t not in CHILD_TYPE:
+                opts = self.child_options(p)
+                if not opts:
                     return None
-                acts = [['add', f'g_{self.fresh()}', p, CHILD_TYPE[t], self.fresh(), None], ['del', p]]
+                acts = [['add', f'g_{self.fresh()}', p, opts[0], self.fresh(), None], ['del', p]]
                 if self.rng.random() < 0.5:
                     acts.reverse()
             return {'k': 'descr', 'iface': iface, 'actions': acts, 'subtree_conflict': True}
-        if r < 0.35 and parents:
-            p = self.rng.choice(parents)
-            t = CHILD_TYPE[self.types[p]]
-            recreate = [h for h, (pp, tt) in self.deleted.items() if pp in self.tree and h not in self.tree]
-            if recreate and self.rng.random() < 0.5:
-                h = self.rng.choice(recreate)
+        n_mds = sum(1 for h in generated if self.types[h] == 'MdsDescriptor')
+        recreate = self.recreatable()
+        if r < 0.08 and n_mds < 2 and not any(self.deleted[h][1] == 'MdsDescriptor' for h in recreate):
+            # a transaction whose only effect is the creation of a descriptor without parent: a new MDS
+            h = f'g_{self.fresh()}'
+            acts.append(self.add_action(h, None, 'MdsDescriptor', iface))
+            tag.append('root-create')
+        elif r < 0.38 and (parents or recreate):
+            if recreate and self.rng.random() < 0.7:
+                h = self.pick(recreate, 0.7)
                 p, t = self.deleted.pop(h)
+                tag.append('recreate')
+                if p is None:
+                    tag.append('root-create')
+                s = self.slot_for(h) if iface == 'entity' and t != 'PatientContextDescriptor' else None
+                if s is not None:
+                    tag.append('stale-entity')      # the entity was read before the descriptor was removed
+                acts.append(self.add_action(h, p, t, iface, s))
             else:
+                p = self.pick(parents)
+                t = self.rng.choice(self.child_options(p))
                 h = f'g_{self.fresh()}'
-            acts.append(['add', h, p, t, self.fresh(), self.fresh() if self.rng.random() < 0.5 else None])
-            self._add(h, p, t)
-            if self.rng.random() < 0.3:      # parent update + child add in ONE transaction, either order
+                acts.append(self.add_action(h, p, t, iface))
+            self.touch(h)
+            k = self.rng.random()
+            if p is None:
+                pass
+            elif k < 0.3:      # parent update + child add in ONE transaction, either order
                 upd = ['upd', p, self.fresh()]
                 if self.rng.random() < 0.5:
                     acts.insert(0, upd)
                 else:
                     acts.append(upd)
-            elif self.rng.random() < 0.3:                         # a second child of the same parent (siblings)
+            elif k < 0.5 and t not in SINGLETON:                   # a second child of the same parent (siblings)
                 h2 = f'g_{self.fresh()}'
-                acts.append(['add', h2, p, t, self.fresh(), None])
-                self._add(h2, p, t)
-            elif self.rng.random() < 0.25 and t in CHILD_TYPE:   # add a grandchild in the same transaction
+                acts.append(self.add_action(h2, p, t, iface))
+                acts[-1][5] = None
+            elif k < 0.7 and self.child_options(h):                # add a grandchild in the same transaction
                 h2 = f'g_{self.fresh()}'
-                acts.append(['add', h2, h, CHILD_TYPE[t], self.fresh(), None])
-                self._add(h2, h, CHILD_TYPE[t])
+                acts.append(self.add_action(h2, h, self.rng.choice(self.child_options(h)), iface))
+                acts[-1][5] = None
         elif r < 0.6:
-            cands = [h for h in self.tree if self.types[h] in TX_OF_TYPE or self.types[h].startswith('Alert')]
-            h = self.rng.choice(cands)
-            acts.append(['upd', h, self.fresh()])
-            if self.rng.random() < 0.35 and iface == 'classic' and self.types[h] in TX_OF_TYPE:
-                acts.append(['state', h, self.fresh()])         # descriptor and its state in one transaction
-        elif r < 0.72 and self.inv['alert_cond']:
+            ctxd = [h for h in self.live('ctx')]
+            many = [h for h in ctxd if len(self.ctx_of(h)) >= 2]
+            cands = [h for h in self.tree if self.types[h] in TX_OF_TYPE or self.types[h].startswith('Alert')] + ctxd
+            k = self.rng.random()
+            groups = self.by_mds(self.live('metric'))
+            if k < 0.2 and len(groups) > 1:
+                # descriptors of several MDSs in one transaction: their states go into ONE episodic report
+                hs = self.interleaved(self.live('metric')) or []
+                acts += [['upd', h, self.fresh()] for h in hs]
+                tag.append('mds-interleaved')
+            if not acts:
+                if many and k < 0.5:
+                    h = self.rng.choice(many)
+                elif ctxd and k < 0.6:
+                    h = self.rng.choice(ctxd)
+                else:
+                    h = self.pick(cands)
+                a = ['upd', h, self.fresh()]
+                s = self.slot_for(h)
+                if iface == 'entity' and s is not None and self.rng.random() < 0.7:
+                    if h in ctxd and (self.slots[s]['dirty'] or sorted(self.slots[s]['cs']) != sorted(self.ctx_of(h))):
+                        s = None        # would delete / re-create context states as a side effect: not generated
+                    if s is not None:
+                        a.append(s)
+                        tag.append('stale-entity')
+                acts.append(a)
+                self.touch(h)
+                if self.rng.random() < 0.08:
+                    acts.append(['upd', h, self.fresh()])      # twice in one transaction: refused by both interfaces
+                elif h not in ctxd and self.rng.random() < 0.35 and iface == 'classic' and self.types[h] in TX_OF_TYPE:
+                    acts.append(['state', h, self.fresh()])         # descriptor and its state in one transaction
+        elif r < 0.68 and self.inv['alert_cond']:
             live_c = [h for h in self.inv['alert_cond'] if h in self.tree]
             live_s = [h for h in self.inv['alert_sig'] if h in self.tree]
             metrics = self.live('metric')
@@ -166,7 +430,7 @@ class Gen:
             else:
                 return None
         elif generated:
-            h = self.rng.choice(generated)
+            h = self.pick(generated, 0.6)
             acts.append(['del', h])
             sib = [g for g in generated if g != h and self.tree.get(g) == self.tree.get(h) and g in self.tree]
             self._del(h)
@@ -177,16 +441,22 @@ class Gen:
                     self._del(h2)
         else:
             return None
-        return {'k': 'descr', 'iface': iface, 'actions': acts}
+        op = {'k': 'descr', 'iface': iface, 'actions': acts}
+        if tag:
+            op['tag'] = tag
+        return op
 
     def _add(self, h, p, t):
         self.tree[h] = p
         self.types[h] = t
-        self.kinds[TX_OF_TYPE[t]].append(h)
+        if h not in self.kinds[TX_OF_TYPE[t]]:
+            self.kinds[TX_OF_TYPE[t]].append(h)
 
     def _del(self, h):
         for c in [c for c, p in self.tree.items() if p == h]:
             self._del(c)
+        for s in self.ctx_of(h):
+            self._ctx_gone(s)
         self.deleted[h] = (self.tree.pop(h), self.types[h])
 
     def op_reject(self):
@@ -211,14 +481,386 @@ class Gen:
             return {'k': 'ctx', 'actions': [['mk', self.rng.choice(metrics), 'bad', True, 1]], 'expect': 'reject'}
         return {'k': 'descr', 'actions': [['del', 'no_such_handle']], 'expect': 'reject'}
 
+    # ------------------------------------------------------------------ macros: short scripted walks
+    def _iface_seq(self, mode):
+        return {'classic': lambda: 'classic', 'entity': lambda: 'entity'}.get(mode, self.iface)
+
+    def new_leaf(self):
+        """(handle, parent, type) of a fresh metric / channel below a live parent"""
+        chans = [h for h in self.tree if self.types[h] == 'ChannelDescriptor']
+        vmds = [h for h in self.tree if self.types[h] == 'VmdDescriptor']
+        if chans and (not vmds or self.rng.random() < 0.7):
+            return f'g_{self.fresh()}', self.pick(chans), 'NumericMetricDescriptor'
+        if vmds:
+            return f'g_{self.fresh()}', self.pick(vmds), 'ChannelDescriptor'
+        return None
+
+    def touch_ops(self, h, iface):
+        """0..2 committed changes of descriptor h / its state (version counters move on)"""
+        ops = []
+        t = self.types[h]
+        for _ in range(self.rng.choice([0, 1, 1, 2])):
+            k = self.rng.random()
+            if k < 0.4 and t in TX_OF_TYPE and TX_OF_TYPE[t] != 'ctx':
+                ops.append({'k': 'state', 'tx': TX_OF_TYPE[t], 'iface': iface(), 'items': [[h, self.fresh()]]})
+            elif k < 0.8:
+                ops.append({'k': 'descr', 'iface': iface(), 'actions': [['upd', h, self.fresh()]]})
+            else:
+                ops.append({'k': 'descr', 'iface': 'classic', 'actions': [['upd', h, self.fresh()], ['state', h, self.fresh()]]}
+                           if t != 'PatientContextDescriptor' else
+                           {'k': 'descr', 'iface': iface(), 'actions': [['upd', h, self.fresh()]]})
+        return ops
+
+    def macro_cycles(self, mode=None, cycles=None, stale=None):
+        """several delete / re-create cycles of ONE descriptor handle (with its state), updates in between"""
+        iface = self._iface_seq(mode)
+        gen = [h for h in self.tree if h.startswith('g_') and self.types[h] in ('NumericMetricDescriptor', 'ChannelDescriptor')]
+        ops = []
+        if gen and self.rng.random() < 0.5:
+            h = self.pick(gen, 0.7)
+            p, t = self.tree[h], self.types[h]
+        else:
+            leaf = self.new_leaf()
+            if leaf is None:
+                return []
+            h, p, t = leaf
+            ops.append({'k': 'descr', 'iface': iface(), 'actions': [self.add_action(h, p, t, None)]})
+        cycles = cycles or self.rng.choice([2, 2, 3])
+        for c in range(cycles):
+            ops += self.touch_ops(h, iface)
+            slot = None
+            if stale if stale is not None else self.rng.random() < 0.3:
+                ops.append(self.op_read(h))
+                slot = self.nslot
+            ops.append({'k': 'descr', 'iface': iface(), 'actions': [['del', h]], 'tag': ['cycle']})
+            self._del(h)
+            if self.rng.random() < 0.3:
+                ops += [o for o in [self.op_state()] if o]
+            self.deleted.pop(h, None)
+            if slot is not None:
+                op = {'k': 'descr', 'iface': 'entity', 'actions': [self.add_action(h, p, t, None, slot)],
+                      'tag': ['recreate', 'stale-entity']}
+            else:
+                op = {'k': 'descr', 'iface': iface(), 'actions': [self.add_action(h, p, t, None)], 'tag': ['recreate']}
+            ops.append(op)
+        ops += self.touch_ops(h, iface)
+        self.touch(h)
+        return ops
+
+    def ensure_gen_pc(self, iface, ops):
+        """a context descriptor the generator may delete: a PatientContext below a SystemContext that has none"""
+        pcs = [h for h in self.tree if h.startswith('g_') and self.types[h] == 'PatientContextDescriptor']
+        if pcs:
+            return self.rng.choice(pcs)
+        scs = [h for h in self.tree if self.types[h] == 'SystemContextDescriptor' and 'PatientContextDescriptor' in self.child_options(h)]
+        if not scs:
+            mds = [h for h in self.tree if self.types[h] == 'MdsDescriptor' and 'SystemContextDescriptor' in self.child_options(h)]
+            if not mds:
+                mds = [self.macro_root(ops, iface)]
+            sc = f'g_{self.fresh()}'
+            ops.append({'k': 'descr', 'iface': iface(), 'actions': [self.add_action(sc, self.rng.choice(mds), 'SystemContextDescriptor', None)]})
+            scs = [sc]
+        pc = f'g_{self.fresh()}'
+        ops.append({'k': 'descr', 'iface': iface(), 'actions': [self.add_action(pc, self.rng.choice(scs), 'PatientContextDescriptor', None)]})
+        return pc
+
+    def macro_root(self, ops, iface):
+        h = f'g_{self.fresh()}'
+        ops.append({'k': 'descr', 'iface': iface(), 'actions': [self.add_action(h, None, 'MdsDescriptor', None)],
+                    'tag': ['root-create']})
+        return h
+
+    def macro_ctx_cycles(self, mode=None, cycles=None):
+        """context states with explicit handles that go (with their descriptor, or deleted through the entity
+        interface) and come back"""
+        iface = self._iface_seq(mode)
+        ops = []
+        pc = self.ensure_gen_pc(iface, ops)
+        p, t = self.tree[pc], self.types[pc]
+        cycles = cycles or 2
+        names = []
+        for c in range(cycles):
+            for _ in range(2 if c == 0 else 1):
+                acts = []
+                i = iface()
+                dead = [h for h, d in self.dead_ctx.items() if d == pc]
+                names.append(self._mk(pc, i, acts, handle=self.rng.choice(dead) if dead else f'cs{self._nc()}', assoc=self.rng.random() < 0.5))
+                ops.append({'k': 'ctx', 'iface': i, 'actions': acts, 'tag': ['recreate'] if dead else []})
+            for h in self.rng.sample(self.ctx_of(pc), min(2, len(self.ctx_of(pc)))):
+                ops.append({'k': 'ctx', 'iface': iface(), 'actions': [['get', h, self.fresh(), None]]})
+            if self.rng.random() < 0.6:
+                i = iface()
+                ops.append({'k': 'descr', 'iface': i, 'actions': [['upd', pc, self.fresh()]]})
+            ops.append({'k': 'descr', 'iface': iface(), 'actions': [['del', pc]], 'tag': ['cycle']})
+            self._del(pc)
+            self.deleted.pop(pc, None)
+            ops.append({'k': 'descr', 'iface': iface(), 'actions': [self.add_action(pc, p, t, None)], 'tag': ['recreate']})
+        for h in [h for h, d in self.dead_ctx.items() if d == pc]:
+            acts = []
+            i = iface()
+            self._mk(pc, i, acts, handle=h, assoc=False)
+            ops.append({'k': 'ctx', 'iface': i, 'actions': acts, 'tag': ['recreate']})
+        return ops
+
+    def macro_delstate_cycles(self, mode=None):
+        """a context state is deleted through the entity interface and created again, twice; then an aborted and a
+        successful re-creation (the consumer cannot follow such a deletion - known finding - so scenarios end with this)"""
+        iface = self._iface_seq(mode)
+        ops = []
+        if not self.w.get('delstate') or not self.live('ctx'):
+            return ops
+        dh = self.rng.choice(self.live('ctx'))
+        h = f'cs{self._nc()}'
+        for c in range(2):
+            acts = []
+            self._mk(dh, 'entity', acts, handle=h, assoc=False)
+            ops.append({'k': 'ctx', 'iface': 'entity', 'actions': acts, 'tag': ['recreate'] if c else []})
+            ops.append({'k': 'ctx', 'iface': iface(), 'actions': [['get', h, self.fresh(), None]]})
+            ops.append({'k': 'ctx', 'iface': 'entity', 'actions': [['delstate', h]]})
+            self._ctx_gone(h)
+        ops.append({'k': 'ctx', 'iface': iface(), 'actions': [['mk', dh, h, False, self.fresh()]], 'abort_at': 1,
+                    'expect': 'abort', 'tag': ['aborted-recreate']})
+        acts = []
+        self._mk(dh, 'classic', acts, handle=h, assoc=False)
+        ops.append({'k': 'ctx', 'iface': 'classic', 'actions': acts, 'tag': ['recreate']})
+        return ops
+
+    def _nc(self):
+        self.nctx += 1
+        return self.nctx
+
+    def macro_abort_recreate(self, mode=None, what=None):
+        """remove h; a transaction that starts to create h again is aborted / rejected; h is created again"""
+        iface = self._iface_seq(mode)
+        ops = []
+        what = what or self.rng.choice(['descr', 'descr', 'ctx'])
+        if what == 'ctx' and not [h for h, d in self.dead_ctx.items() if d in self.tree]:
+            # a context state with an explicit handle that went with its descriptor; the descriptor is back
+            pc = self.ensure_gen_pc(iface, ops)
+            h = f'cs{self._nc()}'
+            acts = []
+            self._mk(pc, 'entity', acts, handle=h, assoc=False)
+            ops.append({'k': 'ctx', 'iface': iface(), 'actions': acts})
+            ops.append({'k': 'ctx', 'iface': iface(), 'actions': [['get', h, self.fresh(), None]]})
+            p, t = self.tree[pc], self.types[pc]
+            ops.append({'k': 'descr', 'iface': iface(), 'actions': [['del', pc]], 'tag': ['cycle']})
+            self._del(pc)
+            self.deleted.pop(pc, None)
+            ops.append({'k': 'descr', 'iface': iface(), 'actions': [self.add_action(pc, p, t, None)], 'tag': ['recreate']})
+        dead = [h for h, d in self.dead_ctx.items() if d in self.tree]
+        if what == 'ctx' and dead:
+            h = self.rng.choice(dead)
+            dh = self.dead_ctx[h]
+            for variant in self.rng.sample(['abort', 'reject', 'abort-entity'], self.rng.choice([1, 2])):
+                i = 'entity' if variant == 'abort-entity' else 'classic'
+                acts = [['mk', dh, h, False, self.fresh()]]
+                op = {'k': 'ctx', 'iface': i, 'actions': acts, 'tag': ['aborted-recreate']}
+                if variant == 'reject':
+                    acts.append(['get', 'no_such_state', 1, None])
+                    op['expect'] = 'reject'
+                else:
+                    op.update({'abort_at': 1, 'expect': 'abort'})
+                ops.append(op)
+            acts = []
+            i = iface()
+            self._mk(dh, i, acts, handle=h, assoc=False)
+            ops.append({'k': 'ctx', 'iface': i, 'actions': acts, 'tag': ['recreate']})
+            return ops
+        cand = self.recreatable()
+        if cand:
+            h = self.pick(cand, 0.7)
+            p, t = self.deleted[h]
+        else:
+            gen = [g for g in self.tree if g.startswith('g_') and self.types[g] in ('NumericMetricDescriptor', 'ChannelDescriptor')]
+            if gen and self.rng.random() < 0.5:
+                h = self.pick(gen)
+                p, t = self.tree[h], self.types[h]
+            else:
+                leaf = self.new_leaf()
+                if leaf is None:
+                    return []
+                h, p, t = leaf
+                ops.append({'k': 'descr', 'iface': iface(), 'actions': [self.add_action(h, p, t, None)]})
+            ops += self.touch_ops(h, iface)
+            ops.append({'k': 'descr', 'iface': iface(), 'actions': [['del', h]], 'tag': ['cycle']})
+            self._del(h)
+        for variant in self.rng.sample(['abort', 'reject', 'abort-entity', 'reject-key'], self.rng.choice([1, 2])):
+            i = 'entity' if variant == 'abort-entity' else 'classic'
+            acts = [['add', h, p, t, self.fresh(), self.fresh() if t != 'PatientContextDescriptor' else None]]
+            op = {'k': 'descr', 'iface': i, 'actions': acts, 'tag': ['aborted-recreate']}
+            if variant == 'reject':
+                acts.append(['add', h, p, t, self.fresh(), None])     # a second add of the same handle: ValueError
+                op['expect'] = 'reject'
+            elif variant == 'reject-key':
+                acts.append(['del', 'no_such_handle'])
+                op['expect'] = 'reject'
+            else:
+                op.update({'abort_at': 1, 'expect': 'abort'})
+            ops.append(op)
+        self.deleted.pop(h, None)
+        ops.append({'k': 'descr', 'iface': iface(), 'actions': [self.add_action(h, p, t, None)], 'tag': ['recreate']})
+        ops += self.touch_ops(h, iface)
+        return ops
+
+    def macro_stale(self, mode=None, what=None):
+        """read an entity; other transactions commit on the same object; then the (stale) entity is written"""
+        iface = self._iface_seq(mode)
+        ops = []
+        what = what or self.rng.choice(['state', 'state', 'descr', 'ctx'])
+        if what == 'ctx':
+            dhs = self.live('ctx')
+            if not dhs:
+                return []
+            dh = self.pick(dhs)
+            if not self.ctx_of(dh):
+                acts = []
+                i = iface()
+                self._mk(dh, i, acts, assoc=False)
+                ops.append({'k': 'ctx', 'iface': i, 'actions': acts})
+            ops.append(self.op_read(dh))
+            slot = self.nslot
+            h = self.rng.choice(self.slots[slot]['cs'])
+            for _ in range(self.rng.choice([1, 2])):
+                if self.rng.random() < 0.6:
+                    ops.append({'k': 'ctx', 'iface': iface(), 'actions': [['get', h, self.fresh(), None]]})
+                else:
+                    ops.append({'k': 'descr', 'iface': iface(), 'actions': [['upd', dh, self.fresh()]]})
+            k = self.rng.random()
+            if k < 0.5:
+                ops.append({'k': 'ctx', 'iface': 'entity', 'actions': [['get', h, self.fresh(), None, slot]], 'tag': ['stale-entity']})
+            elif k < 0.75:
+                acts = []
+                self._mk(dh, 'entity', acts, handle=f'cs{self._nc()}', assoc=False, slot=slot)
+                ops.append({'k': 'ctx', 'iface': 'entity', 'actions': acts, 'tag': ['stale-entity']})
+            elif not self.slots[slot]['dirty'] and sorted(self.slots[slot]['cs']) == sorted(self.ctx_of(dh)):
+                ops.append({'k': 'descr', 'iface': 'entity', 'actions': [['upd', dh, self.fresh(), slot]],
+                            'tag': ['stale-entity']})
+            return ops
+        tx = self.rng.choice(['metric', 'metric', 'alert', 'comp', 'op'])
+        pool = self.state_pool(tx)
+        if what == 'descr':
+            pool = [h for h in pool if self.types[h] in TX_OF_TYPE or self.types[h].startswith('Alert')]
+        if not pool:
+            return []
+        h = self.pick(pool)
+        ops.append(self.op_read(h))
+        slot = self.nslot
+        for _ in range(self.rng.choice([1, 1, 2])):
+            k = self.rng.random()
+            if k < 0.6:
+                ops.append({'k': 'state', 'tx': tx, 'iface': iface(), 'items': [[h, self.fresh()]]})
+            elif self.types[h] in TX_OF_TYPE or self.types[h].startswith('Alert'):
+                ops.append({'k': 'descr', 'iface': iface(), 'actions': [['upd', h, self.fresh()]]})
+        if what == 'state':
+            others = [x for x in pool if x != h]
+            items = [[h, self.fresh(), slot]]
+            if others and self.rng.random() < 0.4:
+                items.insert(self.rng.randint(0, 1), [self.rng.choice(others), self.fresh()])
+            ops.append({'k': 'state', 'tx': tx, 'iface': 'entity', 'items': items, 'tag': ['stale-entity']})
+        else:
+            ops.append({'k': 'descr', 'iface': 'entity', 'actions': [['upd', h, self.fresh(), slot]], 'tag': ['stale-entity']})
+        self.touch(h)
+        return ops
+
+    def macro_new_mds(self, mode=None, full=False):
+        """a new MDS at run time (a transaction that ONLY creates a parent-less descriptor), a subtree below it,
+        transactions that mix its states with those of the other MDSs, removal and re-creation of the whole MDS"""
+        iface = self._iface_seq(mode)
+        ops = []
+        roots = [h for h in self.tree if h.startswith('g_') and self.types[h] == 'MdsDescriptor']
+        if roots and not full:
+            mds = self.rng.choice(roots)
+        else:
+            mds = self.macro_root(ops, iface)
+        vmd, ch, m1, m2 = (f'g_{self.fresh()}' for _ in range(4))
+        i = iface()
+        ops.append({'k': 'descr', 'iface': i, 'actions': [self.add_action(vmd, mds, 'VmdDescriptor', None),
+                                                         self.add_action(ch, vmd, 'ChannelDescriptor', None)]})
+        ops.append({'k': 'descr', 'iface': iface(), 'actions': [self.add_action(m1, ch, 'NumericMetricDescriptor', None)]})
+        ops.append({'k': 'descr', 'iface': iface(), 'actions': [self.add_action(m2, ch, 'NumericMetricDescriptor', None)]})
+        for tx in ('metric', 'comp') + (('metric', 'comp') if full else ()):
+            op = self.op_state(tx, interleave=True)
+            if op:
+                ops.append(op)
+        if full or self.rng.random() < 0.5:
+            op = self.op_descr_interleaved()
+            if op:
+                ops.append(op)
+        if full or self.rng.random() < 0.5:
+            ops.append({'k': 'descr', 'iface': iface(), 'actions': [['del', mds]], 'tag': ['cycle']})
+            self._del(mds)
+            self.deleted.pop(mds)
+            ops.append({'k': 'descr', 'iface': iface(), 'actions': [self.add_action(mds, None, 'MdsDescriptor', None)],
+                        'tag': ['root-create', 'recreate']})
+            if full:
+                self.deleted.pop(vmd, None)
+                ops.append({'k': 'descr', 'iface': iface(), 'actions': [self.add_action(vmd, mds, 'VmdDescriptor', None)],
+                            'tag': ['recreate']})
+                ops.append({'k': 'descr', 'iface': iface(), 'actions': [['del', mds]], 'tag': ['cycle']})
+                self._del(mds)
+                self.deleted.pop(mds)
+                ops.append({'k': 'descr', 'iface': iface(), 'actions': [self.add_action(mds, None, 'MdsDescriptor', None)],
+                            'tag': ['root-create', 'recreate']})
+        return ops
+
+    def op_descr_interleaved(self):
+        hs = self.interleaved(self.live('metric'))
+        if not hs:
+            return None
+        return {'k': 'descr', 'iface': self.iface(), 'actions': [['upd', h, self.fresh()] for h in hs],
+                'tag': ['mds-interleaved']}
+
+    def macro_ctx_descr_upd(self, mode=None):
+        """a context descriptor with several context states is updated (both interfaces)"""
+        iface = self._iface_seq(mode)
+        ops = []
+        dhs = self.live('ctx')
+        if not dhs:
+            return []
+        dh = self.pick(dhs)
+        while len(self.ctx_of(dh)) < 2 + (self.rng.random() < 0.4):
+            acts = []
+            i = iface()
+            self._mk(dh, i, acts)
+            ops.append({'k': 'ctx', 'iface': i, 'actions': acts})
+        for i in self.rng.sample(['classic', 'entity'], 2)[:self.rng.choice([1, 2, 2])]:
+            if mode in ('classic', 'entity'):
+                i = mode
+            ops.append({'k': 'descr', 'iface': i, 'actions': [['upd', dh, self.fresh()]]})
+        self.touch(dh)
+        return ops
+
+    def macro_interleave(self):
+        """every state transaction kind with states of two MDSs in an order in which the MDSs alternate"""
+        ops = []
+        for tx in ('metric', 'alert', 'comp', 'op', 'rt'):
+            for pat in self.rng.sample(PATTERNS, 3):
+                op = self.op_state(tx, interleave=pat)
+                if op:
+                    ops.append(op)
+        for _ in range(2):
+            op = self.op_descr_interleaved()
+            if op:
+                ops.append(op)
+        return ops
+
+    def macro(self):
+        k = self.rng.choice(['cycles', 'cycles', 'ctx_cycles', 'abort_recreate', 'abort_recreate', 'stale', 'stale', 'stale',
+                             'new_mds', 'ctx_descr_upd', 'ctx_descr_upd'] + (['delstate_cycles'] if self.w.get('delstate') else []))
+        return {'delstate_cycles': self.macro_delstate_cycles, 'cycles': self.macro_cycles, 'ctx_cycles': self.macro_ctx_cycles, 'abort_recreate': self.macro_abort_recreate,
+                'stale': self.macro_stale, 'new_mds': self.macro_new_mds, 'ctx_descr_upd': self.macro_ctx_descr_upd}[k]()
+
     def history(self, nops):
         ops = []
-        choices = [k for k, w in self.w.items() if k in ('state', 'ctx', 'location', 'descr', 'reject', 'abort')
+        choices = [k for k, w in self.w.items() if k in ('state', 'ctx', 'location', 'descr', 'reject', 'abort', 'macro')
                    for _ in range(w)]
         guard = 0
         while len(ops) < nops and guard < 10 * nops:
             guard += 1
             k = self.rng.choice(choices)
+            if k == 'macro':
+                ops += self.macro()
+                continue
             if k == 'abort':
                 snap = self._save()
                 base = self.rng.choice([self.op_state, self.op_ctx, self.op_descr])()
@@ -240,10 +882,64 @@ class Gen:
         return ops
 
     def _save(self):
-        return copy.deepcopy((self.tree, self.types, self.deleted, self.ctx_states, self.kinds, self.ngen, self.nctx))
+        return copy.deepcopy((self.tree, self.types, self.deleted, self.ctx_states, self.kinds, self.ngen, self.nctx,
+                              self.dead_ctx, self.slots, self.hot, self.nslot))
 
     def _restore(self, s):
-        self.tree, self.types, self.deleted, self.ctx_states, self.kinds, self.ngen, self.nctx = s
+        (self.tree, self.types, self.deleted, self.ctx_states, self.kinds, self.ngen, self.nctx, self.dead_ctx,
+         self.slots, self.hot, self.nslot) = s
+
+
+# ----------------------------------------------------------------------------- crafted scenario histories
+def scenario(g: Gen, i: int, mode=None):
+    """the i-th crafted history (fixed structure; handles and payloads come from the generator's rng);
+    mode: 'classic' | 'entity' | None (both interfaces mixed)"""
+    return SCENARIOS[i % len(SCENARIOS)](g, mode)
+
+
+def _sc_cycles(g, mode):
+    return g.macro_cycles(mode, cycles=3, stale=False) + g.macro_abort_recreate(mode, 'descr')
+
+
+def _sc_cycles_stale(g, mode):
+    return g.macro_cycles(None, cycles=2, stale=True) + g.macro_stale(mode, 'state') + g.macro_stale(mode, 'descr')
+
+
+def _sc_new_mds(g, mode):
+    return g.macro_new_mds(mode, full=True)
+
+
+def _sc_ctx(g, mode):
+    return (g.macro_ctx_descr_upd(mode) + g.macro_stale(mode, 'ctx') + g.macro_ctx_cycles(mode, cycles=2) +
+            g.macro_delstate_cycles(mode))
+
+
+def _sc_abort(g, mode):
+    return (g.macro_abort_recreate(mode, 'descr') + g.macro_abort_recreate(mode, 'descr') +
+            g.macro_ctx_cycles(mode, cycles=1) + g.macro_abort_recreate(mode, 'ctx') + g.macro_delstate_cycles(mode))
+
+
+def _sc_interleave(g, mode):
+    ops = []
+    if len(g.by_mds(g.live('metric'))) < 2:
+        ops += g.macro_new_mds(mode)
+    pcs = g.by_mds(g.live('ctx'))
+    if len(pcs) < 2:
+        g.ensure_gen_pc(g._iface_seq(mode), ops)
+    ops += g.macro_interleave()
+    for _ in range(3):
+        op = g.op_ctx()
+        if op:
+            ops.append(op)
+    return ops
+
+
+def _sc_stale(g, mode):
+    return (g.macro_stale(mode, 'state') + g.macro_stale(mode, 'state') + g.macro_stale(mode, 'descr') +
+            g.macro_stale(mode, 'ctx') + g.macro_ctx_descr_upd(mode))
+
+
+SCENARIOS = [_sc_cycles, _sc_cycles_stale, _sc_new_mds, _sc_ctx, _sc_abort, _sc_interleave, _sc_stale]
 
 
 # ----------------------------------------------------------------------------- oracles on implementation traces
@@ -264,6 +960,7 @@ class Tables:
 
 
 VER_POS = {'descrs': (3,), 'states': (2, 3), 'cstates': (2, 3)}
+SAVED_OF = {'d': 'descrs', 's': 'states', 'c': 'cstates'}
 
 
 def oracle_provider(case, result):
@@ -276,13 +973,23 @@ def oracle_provider(case, result):
             last_ver[k][h] = [x[p] for p in VER_POS[k]]
     if init['index_problems']:
         yield 'C11', -1, 'provider: ' + init['index_problems'][0]
+    # the remembered versions of removed handles (handle_version_lookup of the three tables)
+    saved = {k: {str(e[0]): e[1] for e in init.get('saved', {}).get(k, [])} for k in SAVED_OF}
     for n, (op, st) in enumerate(zip(case['ops'], result['trace'])):
         d = st['prov']
         prev_ver = tb.ver
         changed = any(d[k]['set'] or d[k]['del'] for k in VER_POS)
+        sv_new = {k: d.get('saved', {}).get(k, []) for k in SAVED_OF}
+        sv_gone = {k: d.get('saved_del', {}).get(k, []) for k in SAVED_OF}
         if st['res'] != 'ok':
             if changed or d['ver'] != prev_ver:
                 yield 'C03', n, f'transaction ended with {st["res"].split(":")[0]} but the MDIB changed (version {prev_ver}->{d["ver"]})'
+            for k in SAVED_OF:
+                if sv_new[k] or sv_gone[k]:
+                    h = str(sv_new[k][0][0]) if sv_new[k] else sv_gone[k][0]
+                    yield 'C03', n, (f'transaction ended with {st["res"].split(":")[0]} but the remembered last version of the '
+                                     f'removed {SAVED_OF[k][:-1]} {h} changed: {saved[k].get(h)} -> '
+                                     f'{sv_new[k][0][1] if sv_new[k] else "forgotten"}')
             if st['reports']:
                 yield 'C03', n, f'transaction ended with {st["res"].split(":")[0]} but a report was sent'
             if st['res'].startswith('Other'):
@@ -308,6 +1015,24 @@ def oracle_provider(case, result):
                     elif old is not None and newv[0] == seen[0] and _content(old) != _content(x):
                         yield 'C02', n, f'{k[:-1]} {h}: content changed but version stayed {newv[0]}'
                 last_ver[k][h] = [max(a, b) for a, b in zip(newv, seen)] if seen else newv
+        # remembered versions: never forgotten, never lower, and every object that leaves a table is remembered with
+        # the version it had
+        for k, tab in SAVED_OF.items():
+            for e in sv_new[k]:
+                h = str(e[0])
+                if st['res'] == 'ok' and saved[k].get(h) is not None and e[1] < saved[k][h]:
+                    yield 'C02', n, f'remembered last version of {tab[:-1]} {h} went back {saved[k][h]}->{e[1]}'
+                saved[k][h] = e[1]
+            for h in sv_gone[k]:
+                if st['res'] == 'ok':
+                    yield 'C02', n, f'the remembered last version of {tab[:-1]} {h} ({saved[k].get(h)}) was forgotten'
+                saved[k].pop(h, None)
+            if 'saved' in d:
+                for h in d[tab]['del']:
+                    old = tb.t[tab].get(h)
+                    if old is not None and saved[k].get(h) != old[VER_POS[tab][0]]:
+                        yield 'C02', n, (f'{tab[:-1]} {h} was removed with version {old[VER_POS[tab][0]]} but the MDIB remembers '
+                                         f'{saved[k].get(h)} as its last version')
         tb.apply(d)
         # referential consistency
         for h, x in tb.t['states'].items():
@@ -382,7 +1107,7 @@ def oracle_reports(case, result):
                 continue
             for part in r['parts']:
                 for s_ in part['states']:
-                    dh = s_[1] if len(s_) == 8 else s_[0]
+                    dh = s_[1] if len(s_) >= 8 else s_[0]
                     want_mds = mds_of(dh)
                     if part.get('mds') is not None and want_mds is not None and part['mds'] != want_mds:
                         yield 'C04', n, f'state {s_[0]} is reported under MDS {part["mds"]} but belongs to {want_mds}'
@@ -419,6 +1144,34 @@ def oracle_reports(case, result):
                 yield 'C04', n, f'descriptor {h} changed but is not in the DescriptionModificationReport'
             elif rep_d[h] != x:
                 yield 'C04', n, f'descriptor {h} reported as {rep_d[h]} but committed as {x}'
+        # a report part carries, next to its descriptor, every state the commit changed for that descriptor (one for a
+        # single-state descriptor, ALL changed context states of a context descriptor) with the committed values
+        for r in dm:
+            for part in r['parts']:
+                if part['mod'] == 'Del':
+                    continue
+                for x in part['descrs']:
+                    h = str(x[0])
+                    want = {k: v for k, v in changed_states.items() if k == h}
+                    want.update({k: v for k, v in changed_c.items() if str(v[1]) == h})
+                    got = {}
+                    for s_ in part['states']:
+                        key = str(s_[0])
+                        if key in got:
+                            yield 'C04', n, f'description report part of {h} lists state {key} twice'
+                        got[key] = s_
+                    for k in sorted(set(want) - set(got)):
+                        yield 'C04', n, (f'the commit changed state {k} of descriptor {h} but the description report part '
+                                         f'of {h} carries only {sorted(got)}')
+                    for k in sorted(set(got) - set(want)):
+                        cur = tb.t['states'].get(k) if len(got[k]) < 8 else tb.t['cstates'].get(k)
+                        if (str(got[k][1]) if len(got[k]) >= 8 else k) != h:
+                            yield 'C04', n, f'description report part of {h} carries state {k} of another descriptor'
+                        elif cur != got[k]:
+                            yield 'C04', n, f'description report part of {h}: state {k} reported as {got[k]} but the MDIB holds {cur}'
+                    for k in sorted(set(got) & set(want)):
+                        if got[k] != want[k]:
+                            yield 'C04', n, f'description report part of {h}: state {k} reported as {got[k]} but committed as {want[k]}'
         for h in d_deleted - rep_del:
             yield 'C04', n, f'descriptor {h} deleted but not reported as deleted'
         for h in rep_del - d_deleted:
